@@ -423,6 +423,25 @@ Proof.
   apply (within32_bounded E); assumption.
 Qed.
 
+(* ---------- the pieces, as stated in Properties/C01.v ---------- *)
+
+Lemma midpoint_ok E a b : (0 <= E <= 126)%Z -> coord_ok E a -> coord_ok E b ->
+  coord_ok E (avg1 a b) /\ Rabs (B2R (avg1 a b) - (B2R a + B2R b) / 2) <= uE E.
+Proof.
+  intros HE [Fa Ba] [Fb Bb]. destruct (avg1_spec E a b HE Fa Fb Ba Bb) as (F & B & U).
+  exact (conj (conj F B) U).
+Qed.
+
+Lemma flat_test_ok E D pts : (0 <= E <= 18)%Z -> Inv E D pts -> D <= 5 / 16 -> flat_enough pts = true.
+Proof.
+  intros HE. assert (H126 : (0 <= E <= 126)%Z) by lia. exact (Inv_flat E H126 D pts (proj2 HE)).
+Qed.
+
+Lemma contraction_ok E D pts : (0 <= E <= 126)%Z -> 0 <= D -> Inv E D pts ->
+  let D' := D / 4 + 4 * (INR (Nat.pred (length pts)) * uE E) in
+  Inv E D' (fst (sub32 pts)) /\ Inv E D' (snd (sub32 pts)).
+Proof. intros HE. exact (Inv_children E HE D pts). Qed.
+
 (* ---------- not vacuous ---------- *)
 
 (* what `0,0,0,2,0,B|131072:-131072|-131072:131072|131072:131072,1,100`
